@@ -43,6 +43,16 @@ func example(cs sc.Case) (ok bool, text string, chk lib.Res, desc string, dir st
 	if res.Panic != "" {
 		return true, "", r, fmt.Sprintf("%s: Example() panics: %s", d, res.Panic), "panic"
 	}
+	// the example of a schema is the result of EVERY Example() call on it
+	var ex2 []byte
+	res2 := lib.Guard(func() error {
+		b, err := s.Example()
+		ex2 = append([]byte(nil), b...)
+		return err
+	})
+	if res2.OK != res.OK || res2.Panic != "" || string(ex2) != string(ex) {
+		return true, string(ex), r, fmt.Sprintf("%s: the first Example() returns %q (%s), a second call on the same schema %q (%s)", d, ex, res, ex2, res2), "unstable"
+	}
 	if !res.OK {
 		return true, "", r, fmt.Sprintf("%s: Check succeeds but Example() fails: %s", d, res), "example-error"
 	}
